@@ -45,6 +45,9 @@ var Cmps = map[string]func(a, b []byte) int{
 	"len":   cmpLen,
 }
 
+// OrderOf returns the canonical order name of a comparator id.
+func OrderOf(id string) string { return orderOf(id) }
+
 // orderOf returns the canonical order name of a comparator id.
 func orderOf(id string) string {
 	if id == "wrap" || id == "" || id == "nil" {
